@@ -22,6 +22,7 @@ import (
 	"path/filepath"
 	"strings"
 	"sync"
+	"time"
 
 	"github.com/Fantom-foundation/lachesis-base/kvdb"
 	"github.com/Fantom-foundation/lachesis-base/kvdb/flushable"
@@ -65,7 +66,8 @@ type kvRunner struct {
 	snaps  map[string]kvdb.Snapshot
 	rec    *recorder
 	closer func() error
-	seq    int
+	// a guarded operation never returned: locks of the wrappers may be held for ever
+	abandoned bool
 }
 
 var caseSeq int
@@ -149,8 +151,10 @@ func (q *kvRunner) open(backend string) string {
 }
 
 func (q *kvRunner) Close() {
-	for _, s := range q.snaps {
-		s.Release()
+	if !q.abandoned { // releasing through a dead-locked wrapper would block
+		for _, s := range q.snaps {
+			s.Release()
+		}
 	}
 	q.snaps = nil
 	if q.closer != nil {
@@ -183,10 +187,16 @@ func parseOps(s string) []bop {
 	return res
 }
 
+// replayGuard bounds a Replay into a store (generous: a replay of a few operations takes microseconds).
+const replayGuard = 2 * time.Second
+
 func (q *kvRunner) Step(line string) string {
 	f := Fields(line)
 	if len(f) == 0 {
 		return "bad-op"
+	}
+	if q.abandoned {
+		return "abandoned"
 	}
 	// pure helpers
 	switch f[0] {
@@ -309,7 +319,24 @@ func (q *kvRunner) Step(line string) string {
 				return "nostore"
 			}
 			if mode == "r" {
-				return errStr(b.Replay(tg.store))
+				// Replay calls the writer while the batch may hold a lock (synced): run it under a guard
+				done := make(chan error, 1)
+				go func() {
+					defer func() {
+						if p := recover(); p != nil {
+							done <- fmt.Errorf("panic %v", p)
+						}
+					}()
+					done <- b.Replay(tg.store)
+				}()
+				select {
+				case err := <-done:
+					return errStr(err)
+				case <-time.After(replayGuard):
+					// the goroutine is stuck inside the store: abandon the case's stores
+					q.abandoned = true
+					return "deadlock"
+				}
 			}
 			nb := tg.store.NewBatch()
 			if err := b.Replay(nb); err != nil {
